@@ -668,7 +668,7 @@ def symbolise_counter(m, st):
         st.facts = nf
 
 
-def canonicalise(m, st):
+def canonicalise(m, st, heads=None):
     """Re-tokenise exact positions, drop unreferenced tokens, saturate gaps, fold the window,
     garbage-collect and renumber cells."""
     # 0a. output fields already stored in the caller's Request/Response are write-only for the
@@ -698,7 +698,12 @@ def canonicalise(m, st):
     map_state(st, fatlen)
     # 0. abstract linear parts over consumed cells that no single-byte value refers to any more
     abstract_dead_cells(m, st)
-    symbolise_counter(m, st)
+    # the header counter is generalised at the outermost loop head of its function only: the
+    # generalisation substitutes by value, which must not meet the small constants of inner loops
+    fr_ = st.frames[-1]
+    hs_ = (heads or {}).get(fr_.inst)
+    if heads is None or (hs_ and fr_.stmt == 0 and fr_.block == min(hs_)):
+        symbolise_counter(m, st)
     # 1. fold the consumed-but-uncommitted window: cells no longer referenced by any live value
     #    are summarised (content mask, length bound, first-byte mask)
     _, _, live_cells = collect_syms(st, with_wfacts=False)
@@ -1082,7 +1087,7 @@ class Explorer:
 
     def covered(self, st):
         drop_dead_locals(self.live, st, self.p)
-        canonicalise(self.m, st)
+        canonicalise(self.m, st, self.heads)
         if st.mon is not None:
             st.mon.at_loop_head(self.m, st)
         k = state_key(st)
